@@ -10,14 +10,19 @@ Open Scope Z_scope.
    Unknown  = anything else (exponents, inf/nan, underscores, whitespace, non-ASCII digits ...): outside the model *)
 Inductive numclass := Dec (m : Z) (k : nat) | NonNum | Unknown.
 
+(* characters a numeric literal other than inf/infinity/nan is made of *)
 Definition float_alphabet (c : N) : bool :=
-  is_digit c || N.eqb c 43 || N.eqb c 45 || N.eqb c 46 || N.eqb c 95 || N.eqb c 101 || N.eqb c 69
-  || existsb (N.eqb (ascii_lower c)) [105;110;102;116;121;97]%N      (* letters of "infinity", "nan" *)
-  || N.leb c 32 || N.leb 127 c.
+  is_digit c || N.eqb c 43 || N.eqb c 45 || N.eqb c 46 || N.eqb c 95 || N.eqb c 101 || N.eqb c 69.
+(* float() strips whitespace and knows non-ASCII digits and spaces: outside the model *)
+Definition float_exotic (c : N) : bool := N.leb c 32 || N.leb 127 c.
+Definition INF_WORDS : list str := [[105;110;102]; [105;110;102;105;110;105;116;121]; [110;97;110]]%N.
 
 Fixpoint all_digits_b (s : str) : bool := match s with [] => true | c :: s' => is_digit c && all_digits_b s' end.
 
 Definition classify (s : str) : numclass :=
+  if existsb float_exotic s then Unknown else
+  let unsigned := match s with 45%N :: r => r | 43%N :: r => r | _ => s end in
+  if existsb (str_eqb (map ascii_lower unsigned)) INF_WORDS then Unknown else
   if negb (forallb float_alphabet s) then NonNum else
   let '(neg, body) := match s with 45%N :: r => (true, r) | _ => (false, s) end in
   let parts := split [46%N] body in
